@@ -32,6 +32,9 @@ func use() {
 def probe():
     src, where = gen_all.use_file("p", "p/a.go")
     src2, _ = gen_all.use_file("w", "w/a.go")
+    # an @ignore directive that matches nothing, in the middle of the file: project-wide exclusions must also
+    # apply to diagnostics that lie before / after the span of the package's own @ignore markers
+    src2 = src2.replace("\t_ = d.T{X: 1005}", "\t_ = d.T{X: 1005} // @ignore ZZZ9")
     prog = {"id": "probe", "pkgs": [
         {"path": "m/d", "name": "d", "files": [{"name": "d/d.go", "src": gen_all.D_SRC}]},
         {"path": "m/p", "name": "p", "files": [{"name": "p/a.go", "src": src}, {"name": "p/a_test.go", "src": TEST_SRC}]},
